@@ -1,6 +1,8 @@
 import ParolModel.Model.TransformProto
 import ParolModel.Model.Pipeline
 import ParolModel.Model.Fixpoints
+import ParolModel.Model.LLOracle
+import ParolModel.Model.LLTermCheck
 /-! # parol's LL(k) path as ONE function, from the EBNF grammar as written to the parser tables (C01d)
 
 `parolLL E st K fuel` composes the EXISTING models in the order in which parol composes the real
@@ -210,6 +212,63 @@ def handleParolLLGrammar : List String → Option String
     | .ok B1 =>
       some s!"ok {showRulesN B1} {",".intercalate ((ntNames B1 st).map String.ofList)} {Proto.showNats (termOrder B1)}"
     | .error e => some (showFbErr (fbCheckTable ps st driverFuel) e)
+  | _ => none
+
+/-- first word on which the parser tables `T` (tokens numbered by `τ`) and the plain grammar `G`
+    (the model's canonical form of the EBNF grammar, language-equivalent by `canon_preserves_lang`)
+    disagree -/
+def fbFirstDiff (T : LLTables) (τ : Nat → Nat) (G : Grammar) :
+    List (List Nat) → Except String (Option (List Nat))
+  | [] => .ok none
+  | w :: ws =>
+    let toks : List MTok := (w.map τ).zipIdx.map fun (t, i) => ⟨t, false, false, i⟩
+    match (llRun T ⟨false, false, none⟩ (llFuelBound T w.length + 10) toks).res, memberB G w with
+    | .fuel, _ => .error "parser-fuel-exhausted"
+    | .internal, _ => .error "parser-internal-error"
+    | r, some b => if (r == .ok) == b then fbFirstDiff T τ G ws else .ok (some w)
+    | _, none => .error "member-fuel-exhausted"
+
+-- @handler parol-ll-check handleParolLLCheck
+/-- `parol-ll-check <n> <start> <ebnf> <K> <impl reply…>` → `ok` | `fail <why>`: the statement of
+    `parol_ll_end_to_end` decided on the tables the REAL pipeline produced. For a table reply:
+    the model pipeline succeeds too, its decidable hypothesis `finalCheckB` holds (the left-factored
+    grammar still passes the grammar checks), the real tables pass `tablesSoundB`, `tablesInRangeB`
+    and the termination certificate `noLeftRecB`, and for every word `w` of length ≤ n over the
+    grammar's terminals plus one foreign terminal the model of `LLKParser::parse_into` on the real
+    tables accepts the token types `w.map parolTermNum` iff `w` is a sentence of the EBNF grammar as
+    written (verified recogniser `member` on the model's canonical form, `canon_preserves_lang`).
+    Error replies: `ok` (the theorem claims nothing), `panic`: `fail`. -/
+def handleParolLLCheck : List String → Option String
+  | n :: st :: g :: maxk :: reply => do
+    let n ← n.toNat?
+    let st ← parseName st
+    let ps ← parseEGrammar g
+    let maxk ← maxk.toNat?
+    match reply with
+    | [rst, rps, rds] => do
+      let rst ← rst.toNat?
+      let rps ← parseLLProds rps
+      let rds ← parseDfas rds
+      let T : LLTables := ⟨rst, rps, rds⟩
+      match parolLL ps st maxk driverFuel, canon .ll driverFuel ps, parolLLGrammar ps st driverFuel with
+      | .ok _, .ok B0, .ok B1 =>
+        let tt := termOrder B1   -- `parolTermNum ps st driverFuel = termNum tt`
+        if !finalCheckB ps st driverFuel then some "fail left-factored-grammar-fails-the-checks" else
+        if !tablesSoundB T then some "fail tables-not-sound" else
+        if !tablesInRangeB T then some "fail tables-index-out-of-range-or-unsorted" else
+        if !noLeftRecB T then some "fail tables-left-recursive" else
+        let ts := termsN B0
+        let foreign := ts.foldl (fun m a => max m (a + 1)) 0
+        let G := toGrammarTbl (st :: namesN B0).eraseDups st B0
+        match fbFirstDiff T (termNum tt) G (allStringsT (ts ++ [foreign]) n) with
+        | .ok none => some "ok"
+        | .ok (some w) => some s!"fail language-differs-on {Proto.showNats w}"
+        | .error e => some s!"fail {e}"
+      | .error e, _, _ =>
+        some s!"fail model-pipeline-answers:{(showFbErr (fbCheckTable ps st driverFuel) e).replace " " "-"}"
+      | _, _, _ => some "fail model-canon-not-ok"
+    | ["panic"] => some "fail panic"
+    | _ => some "ok"
   | _ => none
 
 end ParolModel
